@@ -47,7 +47,6 @@ instance : Inhabited St :=
 /-- Per-instance configuration read from a live instance of the device class (so inheritance
 and `__init__` effects are whatever Python actually computed). -/
 structure Cfg where
-  name : String
   BYTE_WIDTH : Nat
   ADDR_WIDTH : Nat
   byteMask : Int
@@ -65,6 +64,7 @@ structure Cfg where
   INTERRUPT : Int
   ZERO : Int
   CARRY : Int
+  deriving DecidableEq
 
 /-- The three class tables `step()` consults (`instruct`, `cycletime`, `extracycles`). -/
 structure Tbl where
